@@ -12,7 +12,8 @@ RULE = ("plugin lists up to length 3 (4 thorough) over kinds {init, document, me
         "non-200 status, 202}; the hook log, the bytes at the recording transport and the returned value are "
         "compared with the model; one plugin raising at each stage; non-trivial = at least two plugins of the same "
         "kind or a reply that stops the pipeline early; distinct = distinct (plugin list, setting, reply)"
-        ' ; plus: plugins deriving from several plugin classes, hooks raising TransportError')
+        ' ; plus: plugins deriving from several plugin classes, hooks raising TransportError'
+        ' ; hook methods defined on the plugin class, a base class, a mixin or the instance')
 ASSUMPTIONS = []
 PARTIAL = []
 TRUSTED = []
